@@ -31,6 +31,9 @@ import Bmc.Proofs.GenDec.SessionSelector
 import Bmc.Proofs.GenDec.Message
 import Bmc.Proofs.GenDec.GetDCMICapabilitiesInfoEnhancedSystemPowerStatisticsAttrsRsp
 import Bmc.Proofs.GenDec.GetDCMISensorInfoRsp
+import Bmc.Proofs.GenDec.FullSensorRecord
+import Bmc.Proofs.GenDec.V2Session
+import Bmc.Proofs.GenDec.AES128CBC
 import Bmc.Proofs.ApiWrappers
 #print axioms Bmc.Proofs.C17.deviceID_reuse
 #print axioms Bmc.Proofs.C17.chassis_reuse
@@ -89,6 +92,9 @@ import Bmc.Proofs.ApiWrappers
 #print axioms Bmc.Proofs.GenDec.Message_gen_eq
 #print axioms Bmc.Proofs.GenDec.GetDCMICapabilitiesInfoEnhancedSystemPowerStatisticsAttrsRsp_gen_eq
 #print axioms Bmc.Proofs.GenDec.GetDCMISensorInfoRsp_gen_eq
+#print axioms Bmc.Proofs.GenDec.FullSensorRecord_gen_eq
+#print axioms Bmc.Proofs.GenDec.V2Session_gen_eq
+#print axioms Bmc.Proofs.GenDec.AES128CBC_gen_eq
 #print axioms Bmc.Proofs.ApiWrappers.api_wrappers
 #print axioms Bmc.Proofs.ApiWrappers.api_other_senders
 #print axioms Bmc.Proofs.ApiWrappers.api_cmd_constructors
